@@ -4,8 +4,10 @@ import (
 	"bytes"
 	"context"
 	"encoding/json"
+	"fmt"
 	"io"
 	"log/slog"
+	"reflect"
 	"runtime"
 	"slices"
 	"strconv"
@@ -204,6 +206,19 @@ func appendJsonValue(buf *[]byte, v slog.Value, colorful bool) {
 		*buf = append(*buf, '"')
 	case slog.KindAny, slog.KindLogValuer:
 		va := v.Any()
+		start := len(*buf)
+		defer func() {
+			// Like log/slog: a panic while formatting the value (e.g. Error() on a nil pointer) must not escape.
+			if r := recover(); r != nil {
+				*buf = append((*buf)[:start], '"')
+				if rv := reflect.ValueOf(va); rv.Kind() == reflect.Pointer && rv.IsNil() {
+					*buf = append(*buf, "<nil>"...)
+				} else {
+					appendJsonString(buf, fmt.Sprintf("!PANIC: %v", r))
+				}
+				*buf = append(*buf, '"')
+			}
+		}()
 		if _, ok := va.(json.Marshaler); ok {
 			appendJsonMarshal(buf, va)
 		} else if vv, ok := va.(error); ok {
